@@ -1,6 +1,6 @@
 (** The only file with extraction directives.  ExtrOcamlBasic maps bool, option, list, prod,
     unit, sumbool, sumor to the OCaml types; nat, N, positive stay the extracted inductives. *)
-From HCTL Require Import Base Syntax Tokenizer Parser Preprocess Canon MarkDup TT Ops Eval Pipeline Sem.
+From HCTL Require Import Base Syntax Tokenizer Parser Preprocess Canon MarkDup TT Ops Eval Pipeline Sem Converter Shell.
 Require Extraction.
 Require Import ExtrOcamlBasic.
 
@@ -26,4 +26,6 @@ Extraction "hctl_model.ml"
   x_tokenize x_parse_formula x_parse_and_minimize x_model_check x_spec_eval x_layout_pn
   parse_tokens preprocess canonize get_canonical mark_duplicates render annotate forget height
   of_bits to_bits mk_layout Build_world Build_mode num_hctl_vars collect_wild
-  N.of_nat N.to_nat tree_eqb.
+  N.of_nat N.to_nat tree_eqb
+  flatten_rs explode_rs eval_flat pname
+  load_formulae extension strip_suffix s_dot_bdd s_bdd result_label.
